@@ -145,3 +145,63 @@ pub fn c20(cfg: &J) {
         }
     }
 }
+
+/// Two threads describe (and use) their own metric at the same moment; a later readout must
+/// write each metric with the unit it was described with.
+pub fn c20_describe(cfg: &J) {
+    let pre = cfg["pre_described"].as_u64().unwrap_or(0);
+    let rec: Rec = MetricRecorder::new();
+    for i in 0..pre {
+        rec.describe_counter(metrics_024::KeyName::from(format!("pre{i}")), Some(metrics_024::Unit::Count), "d".into());
+    }
+    let units = [metrics_024::Unit::Milliseconds, metrics_024::Unit::Bytes];
+    let threads: Vec<_> = (0..2usize)
+        .map(|i| {
+            let rec = rec.clone();
+            let unit = units[i];
+            thread::spawn(move || {
+                let name = format!("m{i}");
+                let key = Key::from_name(name.clone());
+                // registered first so that the first touch of the registry is not concurrent
+                let c = rec.register_counter(&key, &md());
+                rec.describe_counter(metrics_024::KeyName::from(name), Some(unit), "d".into());
+                c.increment(1);
+            })
+        })
+        .collect();
+    for t in threads {
+        t.join().unwrap();
+    }
+    let e = rec.readout();
+    let mut units = UnitsOf(BTreeMap::new());
+    metrique_writer_core::Entry::write(&e, &mut units);
+    let got: Vec<(String, String)> = (0..2).map(|i| {
+        let n = format!("m{i}");
+        (n.clone(), units.0.get(&n).cloned().unwrap_or_else(|| "<missing>".into()))
+    }).collect();
+    mc::outcome(format!("{got:?}"));
+    let want = ["Milliseconds", "Bytes"];
+    for (i, (n, u)) in got.iter().enumerate() {
+        if u != want[i] {
+            mc::violation("described-unit-lost", format!("metric {n} was described with unit {} but the readout writes it with {u} (all: {got:?})", want[i]));
+        }
+    }
+}
+
+struct UnitsOf(BTreeMap<String, String>);
+struct UV<'c>(String, &'c mut BTreeMap<String, String>);
+impl metrique_writer_core::ValueWriter for UV<'_> {
+    fn string(self, _v: &str) {}
+    fn metric<'a>(self, _d: impl IntoIterator<Item = metrique_writer_core::Observation>, unit: metrique_writer_core::Unit, _dims: impl IntoIterator<Item = (&'a str, &'a str)>, _f: metrique_writer_core::MetricFlags<'_>) {
+        self.1.insert(self.0, format!("{unit:?}"));
+    }
+    fn error(self, _e: metrique_writer_core::ValidationError) {}
+}
+impl<'a> metrique_writer_core::EntryWriter<'a> for UnitsOf {
+    fn timestamp(&mut self, _t: std::time::SystemTime) {}
+    fn value(&mut self, name: impl Into<std::borrow::Cow<'a, str>>, value: &(impl metrique_writer_core::Value + ?Sized)) {
+        let name: std::borrow::Cow<'a, str> = name.into();
+        value.write(UV(name.into_owned(), &mut self.0));
+    }
+    fn config(&mut self, _c: &'a dyn metrique_writer_core::EntryConfig) {}
+}
